@@ -85,11 +85,11 @@ class Effects:
         return R, W
 
 
-def rule_O(prog, chk, floor_n):
+def rule_O(prog, chk, floor_n, select=None, rule="O"):
     eff = Effects(prog)
     n = 0
     for f in sorted(prog.funcs, key=lambda x: (x.file, x.line)):
-        if f.short != "_deserialize" or f.cfg is None:
+        if f.cfg is None or not (select(f) if select else f.short == "_deserialize"):
             continue
         # local objects and the mutating calls made on them, in source order
         calls = {}
@@ -141,10 +141,10 @@ def rule_O(prog, chk, floor_n):
                     # setters feeding one derived member, e.g. radius and rotation of a tensor) B is taken to recompute it
                     bad = bool(stale) and bool(Wa) and not (Wa & Wb)
                     sa, sb = a["callee"].split("::")[-1], b["callee"].split("::")[-1]
-                    chk.ob("O", "%s: `%s.%s` does not compute from a member that the later `%s.%s` replaces" % (f.name, name, sa, name, sb),
+                    chk.ob(rule, "%s: `%s.%s` does not compute from a member that the later `%s.%s` replaces" % (f.name, name, sa, name, sb),
                            f.loc(b), not bad,
                            detail=None if not bad else "%s reads %s and stores a value derived from it (%s); %s, applied afterwards, changes %s without redoing "
                            "that computation: the rebuilt object differs from the one that was saved (the writer stored the final values)" % (
                                sa, ", ".join(stale), ", ".join(sorted(Wa - Wb))[:80], sb, ", ".join(stale)),
-                           key="O|%s|%s.%s<%s" % (f.name, name, sa, sb), nontrivial=bool(Ra & Wb) or bool(Rb & Wa))
-    chk.floor("O", n, floor_n)
+                           key="%s|%s|%s.%s<%s" % (rule, f.name, name, sa, sb), nontrivial=bool(Ra & Wb) or bool(Rb & Wa))
+    chk.floor(rule, n, floor_n)
